@@ -5,8 +5,8 @@
    under which key the result verifies, the layout of the 128-byte form, length / structure / HRP checks of every encoding,
    the derivation wrappers, and the EMIP-3 container.  Only statements here; proofs are in Crypto/*Proofs.v. *)
 From CSL Require Import Base.Prelude Base.Hex Cbor.Head Crypto.Iface Crypto.Wrappers Crypto.WrappersProofs
-  Crypto.Emip3 Crypto.Emip3Proofs Crypto.Toy Crypto.Obs Crypto.ObsProofs Crypto.Bech32Inst.
-From CSL Require Addr.Bech32 Addr.Bech32Proofs.
+  Crypto.Emip3 Crypto.Emip3Proofs Crypto.Toy Crypto.Obs Crypto.ObsProofs Crypto.Bech32Inst Crypto.WitnessCbor Crypto.WitnessCborProofs.
+From CSL Require Addr.Bech32 Addr.Bech32Proofs Codec.Schema Ledger.Schemas.
 Local Open Scope N_scope.
 
 (* the laws are jointly satisfiable (by a cryptographically worthless instance): no theorem below is vacuous *)
@@ -51,6 +51,30 @@ Proof.
   split; [exact toy_root_ok|]. split; [split; [reflexivity|]|split; [split; [reflexivity|]|reflexivity]];
   apply Forall_forall; intros x Hx; apply repeat_spec in Hx; subst; reflexivity.
 Qed.
+
+(* ---- the same about the SERIALIZED witnesses (Vkeywitness::to_bytes / BootstrapWitness::to_bytes, written with the C01 schemas):
+        byte layout, the C01 decoder reads back exactly the public key and the signature over the hash, and they verify ---- *)
+Theorem C12_witness_bytes_sign_hash : forall P : prims,
+  law_sign_normal P -> law_sign_extended P -> law_shapes P -> law_xpub_layout P ->
+  (forall h sk rest, sk_signable sk ->
+     let b := vkeywitness_to_bytes (make_vkey_witness P h sk) in
+     b = [130; 88; 32] ++ sk_to_public P sk ++ [88; 64] ++ sk_sign P sk h /\
+     Schema.dec Schemas.Vkeywitness (b ++ rest) =
+       Ok (Schema.VList [Schema.VBytes (sk_to_public P sk); Schema.VBytes (sk_sign P sk h)], rest) /\
+     pk_verify P (sk_to_public P sk) h (sk_sign P sk h) = true) /\
+  (forall h attrs k rest, xprv_valid k -> bytes_ok attrs -> len attrs < two64 ->
+     let w := make_icarus_bootstrap_witness P h attrs k in
+     let b := bootstrapwitness_to_bytes w in
+     b = [132; 88; 32] ++ ed_ext_pub P (firstn 64 k) ++ [88; 64] ++ ed_sign_ext P (firstn 64 k) h ++
+         [88; 32] ++ skipn 64 k ++ encode_head 2 (len attrs) ++ attrs /\
+     Schema.dec Schemas.BootstrapWitness (b ++ rest) = Ok (bootstrapwitness_val w, rest) /\
+     pk_verify P (bw_vkey w) h (bw_sig w) = true).
+Proof.
+  intros P LN LE LS LL. split.
+  - intros h sk rest S. exact (vkey_witness_bytes P h sk rest LN LE LS S).
+  - intros h attrs k rest V Ba La. exact (icarus_witness_bytes P h attrs k rest LE LS LL V Ba La).
+Qed.
+Print Assumptions C12_witness_bytes_sign_hash.
 
 (* ---- 128-byte form: secret (64) ++ public key (32) ++ chain code (32); only inputs of exactly 128 bytes are read ---- *)
 Theorem C12_xprv128_roundtrip : forall P : prims, law_shapes P -> law_xpub_layout P ->
